@@ -62,6 +62,10 @@ def run(ctx, col, tier):
     repo = ctx.repo
     from ..rules import stateless as _stateless_memo
     _stateless_memo.run_memo(ctx, col)
+    from ..rules import opaque as _opaque
+    _opaque.run(ctx, col, ('swcgeom.core.swc_utils.base', 'swcgeom.core.tree', 'swcgeom.core.node'))
+    from ..rules import idxguard as _idxguard
+    _idxguard.run(ctx, col, ('swcgeom.core.swc_utils.base', 'swcgeom.core.tree', 'swcgeom.core.node'), floor=1)
     from ..rules import rowslice as _rowslice
     _rowslice.run(ctx, col, ('swcgeom.core.tree', 'swcgeom.core.tree_utils', 'swcgeom.core.tree_utils_impl', 'swcgeom.core.swc_utils.base', 'swcgeom.core.swc_utils.subtree', 'swcgeom.core.swc_utils.normalizer', 'swcgeom.transforms.tree'))
     # a traversal started from a handle relies on the handle's position being normalised (0..n-1): the integer arm of Tree.__getitem__
